@@ -25,6 +25,7 @@ def AND(*fs):
             out.extend(f[1])
         else:
             out.append(f)
+    out = _dedupe(out)
     if not out:
         return True
     return out[0] if len(out) == 1 else ('and', out)
@@ -41,9 +42,21 @@ def OR(*fs):
             out.extend(f[1])
         else:
             out.append(f)
+    out = _dedupe(out)
     if not out:
         return False
     return out[0] if len(out) == 1 else ('or', out)
+
+
+def _dedupe(items):
+    seen = set()
+    out = []
+    for f in items:
+        r = repr(f)
+        if r not in seen:
+            seen.add(r)
+            out.append(f)
+    return out
 
 
 def NOT(f):
@@ -99,7 +112,7 @@ def rename(f, mapping):
     return AND(*parts) if f[0] == 'and' else OR(*parts)
 
 
-MAX_ATOMS = 16
+MAX_ATOMS = 18
 
 
 def assignments(keys):
@@ -133,7 +146,18 @@ def valid(f, given=True):
     return equivalent(f, True, given)[0]
 
 
+def _conjuncts(f):
+    if isinstance(f, tuple) and f[0] == 'and':
+        return f[1]
+    return [f]
+
+
 def implies(f, g, given=True):
+    # fast path: g is (a conjunction of) conjunct(s) of f
+    if given is True:
+        have = {repr(c) for c in _conjuncts(f)}
+        if all(repr(c) in have for c in _conjuncts(g)):
+            return True, None, 0
     keys = atoms_of(f) | atoms_of(g) | atoms_of(given)
     rows = 0
     for a in assignments(keys):
@@ -425,7 +449,10 @@ class Reach:
                             ok = False
                         if ok:
                             env[k] = v
-                cond = OR(c1, c2)
+                if repr(c1) == repr(AND(cond, t)) and repr(c2) == repr(AND(cond, NOT(t))):
+                    pass  # both arms fall through: the condition is unchanged
+                else:
+                    cond = OR(c1, c2)
             elif isinstance(st, (ast.For, ast.While)):
                 carried = assigned_names(st.body) | assigned_names(st.orelse)
                 self.defined |= carried
